@@ -34,7 +34,7 @@ IdentityMutations ==
     json_broken |-> "json", json_array |-> "json",
     format_other |-> "format-version", format_missing |-> "format-version", format_string |-> "format-version",
     no_name_login |-> "fields", name_control |-> "fields", nonce_short |-> "fields", nonce_missing |-> "fields",
-    avatar_bad |-> "fields", clock_back |-> "clocks", clock_dropped |-> "clocks",
+    avatar_bad |-> "fields", clock_back |-> "clocks", clock_dropped |-> "clocks", clock_all_dropped |-> "clocks", clock_none |-> "clocks",
     keys_garbage |-> "keys", keys_wrongtype |-> "keys", keys_null |-> "keys", keys_number |-> "keys",
     merge_commit |-> "chain", ref_other_id |-> "ref", ref_bad_name |-> "ref" ]
 
@@ -63,7 +63,7 @@ VARIABLE st
 BugCases == {[kind |-> "bug", m |-> m, pos |-> p, local |-> l, class |-> BugClass(m, p), verdict |-> Verdict(BugClass(m, p)), status |-> ValidStatus(l)] :
                m \in DOMAIN BugMutations, p \in Positions, l \in Locals}
 IdentityApplicable(m, p) ==
-  CASE m \in {"clock_back", "clock_dropped", "merge_commit"} -> p = "head"
+  CASE m \in {"clock_back", "clock_dropped", "clock_all_dropped", "clock_none", "merge_commit"} -> p = "head"
     [] m \in {"ref_other_id", "ref_bad_name", "none"} -> p = "head"
     [] OTHER -> p \in {"root", "head"}
 (* identities merge fast-forward only: a diverged valid remote is refused as well *)
